@@ -69,6 +69,23 @@ func (e *Ev) evGhostCall(x *ast.CallExpr) Val {
 		o := *e.oldEv
 		o.bound = e.bound
 		return o.ev(x.Args[0])
+	case "forallkey":
+		// forallkey(k, P): P for every string contents k (a ghost sequence)
+		kid, ok := x.Args[0].(*ast.Ident)
+		if !ok || len(x.Args) != 2 {
+			e.unsupp(x, "forallkey(k, P) expects an identifier and a body")
+		}
+		fx.useSeq = true
+		quantSeq++
+		kn := fmt.Sprintf("%s!%d", kid.Name, quantSeq)
+		sub := *e
+		sub.bound = map[string]Val{}
+		for k, v := range e.bound {
+			sub.bound[k] = v
+		}
+		sub.bound[kid.Name] = VSeq{kn}
+		body := sub.boolOf(sub.ev(x.Args[1]), x.Args[1])
+		return VBool{fmt.Sprintf("(forall ((%s BSeq)) %s)", kn, body)}
 	case "before":
 		if e.beforeEv == nil {
 			e.unsupp(x, "before() is only meaningful in a step clause")
